@@ -181,6 +181,35 @@ Theorem make_bibliography_spec : forall fuel fs top a style_arg suffix,
 Proof. exact make_bibliography_spec_l. Qed.
 Print Assumptions make_bibliography_spec.
 
+(* how the flattening treats the lines of a file (numbered from 1): an \@input line is replaced,
+   in place, by the flattening of the named file (and nothing after it is read if that file cannot
+   be read completely); a line command_re does not recognise contributes nothing; a \citation /
+   \bibstyle / \bibdata line contributes one visit carrying its file and line number *)
+Theorem inputs_read_in_place : forall f fs name content pre l post g,
+  fs name = Some content -> lines_of content = pre ++ l :: post ->
+  match_command l = Some (CInput, g) ->
+  expand (S f) fs name =
+  seq_doc (expand_lines (expand f fs) name pre 1)
+    (seq_doc (expand f fs g) (expand_lines (expand f fs) name post (S (length pre + 1)))).
+Proof. exact inputs_read_in_place_l. Qed.
+Print Assumptions inputs_read_in_place.
+Theorem other_lines_ignored : forall f fs name content pre l post,
+  fs name = Some content -> lines_of content = pre ++ l :: post ->
+  match_command l = None ->
+  expand (S f) fs name =
+  seq_doc (expand_lines (expand f fs) name pre 1) (expand_lines (expand f fs) name post (S (length pre + 1))).
+Proof. exact other_lines_ignored_l. Qed.
+Print Assumptions other_lines_ignored.
+Theorem command_line_visited : forall f fs name content pre l post c v,
+  fs name = Some content -> lines_of content = pre ++ l :: post ->
+  match_command l = Some (c, v) -> c <> CInput ->
+  expand (S f) fs name =
+  seq_doc (expand_lines (expand f fs) name pre 1)
+    (seq_doc ([mkvisit name (length pre + 1) (strip l) c v], Complete)
+             (expand_lines (expand f fs) name post (S (length pre + 1)))).
+Proof. exact command_line_visited_l. Qed.
+Print Assumptions command_line_visited.
+
 (* ---- non-vacuity: a document with a nested file, a second \bibstyle and \bibdata after the
    return from it, and a key cited in two spellings across the file boundary *)
 Example ex_read :
